@@ -9,6 +9,7 @@ CONSTANT RoleMenu <- RMa
 CONSTANT DocMenu <- DMr
 CONSTANT Lims <- L0
 CONSTANT MaxSteps = 8
+CONSTANT Thin = 12
 CONSTANT PageGap = FALSE
 SPECIFICATION Spec
 VIEW view
@@ -20,4 +21,6 @@ INVARIANT RevokedUnfetchable
 INVARIANT NoSpuriousRevoke
 INVARIANT ReplicaExactM
 INVARIANT NoSilentDropM
+INVARIANT CandExport
+INVARIANT NontrivExport
 CHECK_DEADLOCK FALSE
